@@ -358,6 +358,18 @@ def guards_of(fn, block):
 # ---------------------------------------------------------------------------
 # call graph
 
+# external generic callees that can invoke a given std trait on a type argument; traits not listed here are
+# assumed callable by ANY external generic callee instantiated at the type (sound over-approximation)
+TRAIT_TRIGGERS = {
+    "std::fmt::Display": ("to_string", "new_display", "fmt::Display", "Display>::fmt", "fmt::format", "write_fmt", "::msg", "ser::Error", "de::Error", "custom"),
+    "std::fmt::Debug": ("new_debug", "fmt::Debug", "Debug>::fmt", "::unwrap", "::expect", "assert_failed", "unwrap_err", "expect_err"),
+    "std::convert::AsRef": ("convert::AsRef", "AsRef<"),
+    "std::str::FromStr": ("::parse", "from_str", "FromStr", "value_parser", "clap::", "ValueParser"),
+    "std::convert::From": ("::into", "::from", "From<", "Into<", "try_into", "try_from", "from_residual", "FromResidual"),
+    "std::convert::TryFrom": ("try_into", "try_from", "TryFrom", "TryInto"),
+    "std::convert::Into": ("::into", "Into<"),
+}
+
 class CallGraph:
     def __init__(self, facts):
         self.F = facts
@@ -381,7 +393,11 @@ class CallGraph:
                 if t[0] == "call":
                     c = t[1]
                     names = set()
-                    if c.get("path"): names.add(c["path"])
+                    if c.get("path"):
+                        names.add(c["path"])
+                        # virtual call (dyn Trait): the "resolved" instance is the trait method itself
+                        if c["path"] not in facts.fns and c.get("decl") in local_traits and c["path"] == c.get("decl") and any(x.startswith("dyn ") for x in (c.get("targs") or [])[:1]):
+                            for imp in local_traits[c["decl"]]: names.add(imp)
                     elif c.get("decl"):
                         names.add(c["decl"])
                         # unresolved trait method (dyn or generic): fan out to local impls
@@ -411,9 +427,14 @@ class CallGraph:
                 tgt = c.get("path") or c.get("decl")
                 if tgt in facts.fns: continue
                 texts = list(c.get("targs") or [])
+                cname = " ".join(x for x in (c.get("decl"), c.get("full")) if x)
                 for ty in texts:
                     for m in set(_re.findall(r"crate::[A-Za-z0-9_:]+", ty)):
                         for imp in impls_of.get(m, ()):
+                            tr = facts.fns[imp].d.get("impl_trait") or ""
+                            if tr.startswith("crate::"): continue          # external code cannot name a local trait
+                            trig = TRAIT_TRIGGERS.get(tr)
+                            if trig is not None and not any(x in cname for x in trig): continue
                             if imp not in self.edges[p]:
                                 self.edges[p].add(imp); self.generic_edges.add((p, imp))
 
